@@ -2,6 +2,8 @@
 
 package swamp
 
+import "github.com/hydraide/hydraide/app/core/hydra/swamp/vigil"
+
 // VerifCapMuFree reports whether the swamp's Cap serialisation mutex could be taken right now
 // (it is released again immediately). Verification builds only.
 func VerifCapMuFree(sw Swamp) bool {
@@ -11,4 +13,9 @@ func VerifCapMuFree(sw Swamp) bool {
 		return true
 	}
 	return false
+}
+
+// VerifVigilCount returns the raw vigil counter of a swamp instance (verification builds only).
+func VerifVigilCount(sw Swamp) int64 {
+	return vigil.VerifCount(sw.(*swamp).Vigil)
 }
